@@ -48,6 +48,8 @@ func c05dRun(t *testing.T, c c05dCase) (kind, what string) {
 	stream := append(append(append([]byte{}, hdr.Bytes()...), rdb...), tail...)
 	out := filepath.Join(os.Getenv("VERIF_SCRATCH"), fmt.Sprintf("c05dump-%d.rdb", os.Getpid()))
 	defer os.Remove(out)
+	// the output of an earlier, larger dump is still there: the run replaces it
+	ioutil.WriteFile(out, bytes.Repeat([]byte("stale dump of an earlier run\n"), (len(rdb)+8192)/29), 0644)
 	abort := false
 	hook.SetExitHook(func(int) { abort = true })
 	defer hook.SetExitHook(nil)
